@@ -16,6 +16,7 @@ import Xandikos.Generated.TimeRange
 import Xandikos.Generated.IterChanges
 import Xandikos.Generated.Gates
 import Xandikos.Generated.Multiget
+import Xandikos.Generated.FindKeys
 import Xandikos.Driver.Codec
 
 open Xandikos Xandikos.Codec
@@ -59,6 +60,15 @@ def optEnc : Option String → String
   | some s => pctEncode s
   | none => "~"
 
+/-- `a,b,c` percent-encoded items (`-`: none) -/
+def itemsOf (s : String) : List String := if s == "-" then [] else (s.splitOn ",").map pctDecode
+
+def countersOf (s : String) : Map Nat :=
+  if s == "-" then ∅ else (s.splitOn ",").foldl (fun m it =>
+    match it.splitOn ":" with
+    | [k, n] => m.insert (pctDecode k) (n.toNat?.getD 0)
+    | _ => m) ∅
+
 def gstep (line : String) : String :=
   match words line with
   | ["etag", h, cur] => bb (Generated.etag_matches (fieldS h).toList ((field cur).map String.toList))
@@ -100,6 +110,14 @@ def gstep (line : String) : String :=
     match Generated.resources_by_hrefs lk (fieldS script) (hrefs.map fieldS) with
     | .ok rows => "=" ++ ",".intercalate (rows.map fun (h, r) => pctEncode h ++ ":" ++ optEnc r)
     | .error (.raised cls _) => "raise:" ++ cls
+  | ["fpk", avail, th, desired, groups] =>
+    let gs := if groups == "-" then [] else (groups.splitOn "|").map itemsOf
+    let keysAll := (gs.flatten ++ itemsOf avail).eraseDups
+    let (d, res, reset) := Generated.find_present_keys (itemsOf avail) (th.toNat?.getD 0) (countersOf desired) gs
+    let showL (l : List String) := ",".intercalate (l.map pctEncode)
+    let cnt := ",".intercalate ((keysAll.filter fun k => (d[k]?).isSome).map fun k => pctEncode k ++ ":" ++ toString ((d[k]?).getD 0))
+    "res=" ++ (match res with | some l => showL l | none => "~") ++ " reset=" ++
+      (match reset with | some l => showL l | none => "~") ++ " desired=" ++ cnt
   | ["match", a, b, k] => exc (Generated.match_ (fieldS a).toList (fieldS b).toList (fieldS k).toList)
   | ["collate", name, a, b, k] =>
     match Generated.collations.find? (fun r => r.1 == (fieldS name).toList) with
